@@ -889,3 +889,178 @@ Proof.
   - destruct (prep_shape_lemma mdf nz l lead t Hs) as [p [Hp Hshape]].
     rewrite Hp, Hps. exists (p :: ps). split; [reflexivity|]. constructor; auto.
 Qed.
+(* ================================================================== deepening round *)
+(* ---- the generic Dict/Tuple handling instantiated with prep_leaf is the original prep *)
+Lemma prep_dict_g_is mdf nz fields items : prep_dict_g (prep_leaf mdf nz) fields items = prep_dict mdf nz fields items.
+Proof. induction items as [|[k t] items IH]; cbn; auto. rewrite IH. reflexivity. Qed.
+Lemma prep_tuple_g_is mdf nz members items : prep_tuple_g (prep_leaf mdf nz) members items = prep_tuple mdf nz members items.
+Proof. revert members; induction items as [|t items IH]; intros [|l ms]; cbn; auto. rewrite IH. reflexivity. Qed.
+Lemma prep_g_is_prep_lemma mdf nz sp o : prep_g (prep_leaf mdf nz) sp o = prep mdf nz sp o.
+Proof. destruct sp, o; cbn; auto; rewrite ?prep_dict_g_is, ?prep_tuple_g_is; reflexivity. Qed.
+
+Lemma prep_leaf_r_false mdf nz l t : prep_leaf_r false mdf nz l t = prep_leaf mdf nz l t.
+Proof. destruct l as [[|d s] b lo hi|n|nvec|n]; reflexivity. Qed.
+Lemma prep_r_false_lemma mdf nz sp o : prep_r false mdf nz sp o = prep mdf nz sp o.
+Proof.
+  unfold prep_r. rewrite <- prep_g_is_prep_lemma.
+  assert (Hd : forall fields items, prep_dict_g (prep_leaf_r false mdf nz) fields items = prep_dict_g (prep_leaf mdf nz) fields items).
+  { intros fields items. induction items as [|[k t] items IH]; cbn; auto. rewrite IH.
+    destruct (lookup k fields); auto. rewrite prep_leaf_r_false. reflexivity. }
+  assert (Ht : forall members items, prep_tuple_g (prep_leaf_r false mdf nz) members items = prep_tuple_g (prep_leaf mdf nz) members items).
+  { intros members items. revert members; induction items as [|t items IH]; intros [|l ms]; cbn; auto.
+    rewrite IH, prep_leaf_r_false. reflexivity. }
+  destruct sp, o; cbn; auto; rewrite ?prep_leaf_r_false, ?Hd, ?Ht; reflexivity.
+Qed.
+
+(* ---- rank-0 Box with a feature axis *)
+Lemma prep_rank0_spec b lo hi mdf nz t lead :
+  shp t = lead -> length lead <= 2 ->
+  prep_leaf_r true mdf nz (Box [] b lo hi) t = Some (T [prod lead; 1] (dat t)).
+Proof.
+  intros Hs Hl. cbn [prep_leaf_r].
+  apply (add_batch_dim_spec (unsqueeze_last t) [1] lead); auto; [cbn; rewrite Hs; reflexivity|intros _; cbn; lia].
+Qed.
+
+Lemma prep_shape_r_lemma mdf nz l lead t :
+  supported mdf l lead t ->
+  exists t', prep_leaf_r true mdf nz l t = Some t' /\ shp t' = prod lead :: encoder_input_shape l.
+Proof.
+  intros H. destruct l as [[|d s] b lo hi|n|nvec|n];
+    try (exact (prep_shape_lemma mdf nz _ lead t H)).
+  destruct H as (Hs & Hl & _). cbn [space_shape] in Hs. rewrite app_nil_r in Hs.
+  eexists; split; [apply prep_rank0_spec; eauto|reflexivity].
+Qed.
+
+Lemma prep_rowwise_r_lemma mdf nz l lead t :
+  supported mdf l lead t ->
+  exists t', prep_leaf_r true mdf nz l t = Some t' /\
+    Forall2 (fun row r_in => prep_leaf_r true mdf nz l (T (space_shape l) r_in) = Some (T (1 :: encoder_input_shape l) row))
+            (rows t') (chunks (prod (space_shape l)) (prod lead) (dat t)).
+Proof.
+  intros H. destruct l as [[|d s] b lo hi|n|nvec|n];
+    try (exact (prep_rowwise_lemma mdf nz _ lead t H)).
+  destruct H as (Hs & Hl & Hwf & _). cbn [space_shape] in *. rewrite app_nil_r in Hs.
+  eexists; split; [apply prep_rank0_spec; eauto|].
+  unfold rows; cbn [shp dat]. change (prod [1]) with 1. change (prod []) with 1.
+  generalize (chunks 1 (prod lead) (dat t)). intros rs. induction rs; constructor; auto.
+Qed.
+
+(* ---- the network accepts every prepared supported input and reports row by row *)
+Lemma get_action_accepts_lemma {O} mdf nz l lead t (f : list Q -> O) :
+  supported mdf l lead t ->
+  exists t', prep_leaf_r true mdf nz l t = Some t' /\
+             get_action_model true mdf nz l f t = Some (map f (rows t')).
+Proof.
+  intros H. destruct (prep_shape_r_lemma mdf nz l lead t H) as (t' & Hp & Hshape).
+  exists t'. split; auto. unfold get_action_model. rewrite Hp. unfold net_rows. rewrite Hshape.
+  destruct (list_eq_dec Nat.eq_dec (encoder_input_shape l) (encoder_input_shape l)); [reflexivity|congruence].
+Qed.
+
+(* before the repair: a batch of three scalar Box observations is prepared as (3,), which a one-feature encoder
+   cannot read — although each of the three observations alone is served *)
+Lemma rank0_batch_pinned_refuted_lemma :
+  exists b lo hi t, supported true (Box [] b lo hi) [3] t /\
+    get_action_model false true true (Box [] b lo hi) (fun r => r) t = None /\
+    Forall (fun x => get_action_model false true true (Box [] b lo hi) (fun r => r) (T [] [x]) = Some [[x]]) (dat t) /\
+    get_action_model true true true (Box [] b lo hi) (fun r => r) t = Some (map (fun x => [x]) (dat t)).
+Proof.
+  exists true, [], [], (T [3] [1#2; 1#4; 0]%Q).
+  split; [repeat split; cbn; auto; try lia; try discriminate|]. split; [reflexivity|]. split; [repeat constructor|reflexivity].
+Qed.
+
+(* ---- MultiBinary with several dimensions is batched as if it had rank 1 *)
+Lemma prep_mb_nd_refuted_lemma dims t :
+  length dims = 2 ->
+  (shp t = dims -> prep_mb_nd dims t = Some t) /\                          (* unbatched: NO batch dimension is added *)
+  (forall b, shp t = b :: dims -> prep_mb_nd dims t = None) /\              (* a batch is an error *)
+  (forall d, shp t = [d] -> prep_mb_nd dims t = Some (unsqueeze0 t)).
+Proof.
+  intros Hd. unfold prep_mb_nd, rank. repeat split.
+  - intros Hs. rewrite Hs, Hd. reflexivity.
+  - intros b Hs. rewrite Hs. cbn [length]. rewrite Hd. reflexivity.
+  - intros d Hs. rewrite Hs. reflexivity.
+Qed.
+(* ---- the prepared tensor is well formed, so every prepared row has exactly the encoder's input size *)
+Lemma flat_map_length_uniform {A B} (f : A -> list B) k (l : list A) :
+  (forall x, In x l -> length (f x) = k) -> length (flat_map f l) = length l * k.
+Proof.
+  induction l as [|a l IH]; intros H; cbn; auto.
+  rewrite app_length, (H a) by (left; auto). rewrite IH; [lia|]. intros; apply H; right; auto.
+Qed.
+
+Lemma prep_wf_lemma mdf nz l lead t :
+  supported mdf l lead t ->
+  exists t', prep_leaf_r true mdf nz l t = Some t' /\ shp t' = prod lead :: encoder_input_shape l /\ wf t'.
+Proof.
+  intros H. pose proof H as (Hs & Hl & Hwf & Hk).
+  destruct l as [[|d s] b lo hi|n|nvec|n].
+  - (* rank-0 Box *)
+    cbn [space_shape] in Hs. rewrite app_nil_r in Hs.
+    eexists; split; [apply prep_rank0_spec; eauto|]. split; [reflexivity|].
+    unfold wf in *. cbn [shp dat]. rewrite Hwf, Hs. cbn. lia.
+  - (* Box of rank >= 1 *)
+    destruct Hk as [Hp Hb]. cbn [prep_leaf_r prep_leaf space_shape] in *.
+    eexists; split; [apply (prep_box_spec nz (d :: s) b lo hi t lead); auto|]. split; [reflexivity|].
+    unfold wf in *. cbn [shp dat].
+    assert (Hlen : length (dat t) = prod lead * prod (d :: s)) by (rewrite Hwf, Hs, prod_app; auto).
+    change (prod (prod lead :: d :: s)) with (prod lead * prod (d :: s)).
+    destruct ((length (d :: s) =? 3) && nz) eqn:Hc.
+    + apply andb_true_iff in Hc as [Hc _]. apply Nat.eqb_eq in Hc. destruct (Hb Hc) as [Hlo Hhi].
+      rewrite <- (concat_chunks _ _ _ Hlen). rewrite box_values_rows; auto; [|apply chunks_all_length; auto].
+      rewrite (concat_length_uniform (prod (d :: s))).
+      * rewrite map_length, chunks_length. reflexivity.
+      * apply Forall_forall. intros y Hy. apply in_map_iff in Hy as [r [<- Hr]].
+        apply box_values_length; auto.
+        pose proof (chunks_all_length _ _ _ Hlen) as Hall. rewrite Forall_forall in Hall. auto.
+    + unfold box_values. rewrite Hc. auto.
+  - (* Discrete *)
+    destruct Hk as [Hn Hc]. cbn [space_shape] in Hs. rewrite app_nil_r in Hs.
+    cbn [prep_leaf_r prep_leaf]. eexists; split; [apply prep_discrete_spec_lemma; auto|].
+    + rewrite Hs. pose proof (sq_length n lead). lia.
+    + split; [cbn; rewrite Hs; reflexivity|].
+      unfold wf in *. cbn [shp dat]. rewrite (flat_map_length_uniform _ n) by (intros; apply one_hot_row_length).
+      rewrite map_length, Hwf. cbn. lia.
+  - (* MultiDiscrete *)
+    destruct Hk as (Hk & HS & Hok & Hl2). cbn [prep_leaf_r prep_leaf space_shape] in *.
+    eexists; split; [apply (prep_md_spec_lemma mdf nvec t lead); auto|]. split; [reflexivity|].
+    unfold wf in *. cbn [shp dat].
+    assert (Hlen : length (dat t) = prod lead * length nvec) by (rewrite Hwf, Hs, prod_app; cbn; lia).
+    rewrite (concat_length_uniform (sum nvec)).
+    + unfold md_rows_in. rewrite map_length, chunks_length. cbn. lia.
+    + apply Forall_forall. intros y Hy. apply in_map_iff in Hy as [r [<- Hr]]. apply md_enc_length.
+      unfold md_rows_in in Hr.
+      assert (Hl' : length (map qlong (dat t)) = prod lead * length nvec) by (rewrite map_length; auto).
+      pose proof (chunks_all_length _ _ _ Hl') as Hall. rewrite Forall_forall in Hall. auto.
+  - (* MultiBinary *)
+    cbn [prep_leaf_r space_shape] in *.
+    eexists; split; [apply (prep_mb_spec mdf nz n t lead); auto|]. split; [reflexivity|].
+    unfold wf in *. cbn [shp dat]. rewrite Hwf, Hs, prod_app. cbn. lia.
+Qed.
+
+Lemma nth_In_Forall {A} (P : A -> Prop) l d i : Forall P l -> i < length l -> P (nth i l d).
+Proof. intros H Hi. rewrite Forall_forall in H. apply H. apply nth_In. auto. Qed.
+
+(* the final clause of the property, in the model: the report for every observation of a batch is the report for that
+   observation handed in alone — whatever the batch size, the (step, env) layout and the other observations *)
+Lemma get_action_batch_independent_lemma {O} mdf nz l lead t (f : list Q -> O) :
+  supported mdf l lead t ->
+  exists outs, get_action_model true mdf nz l f t = Some outs /\
+    Forall2 (fun out r_in => get_action_model true mdf nz l f (T (space_shape l) r_in) = Some [out])
+            outs (chunks (prod (space_shape l)) (prod lead) (dat t)).
+Proof.
+  intros H.
+  destruct (prep_wf_lemma mdf nz l lead t H) as (t' & Hp & Hshape & Hwf').
+  destruct (prep_rowwise_r_lemma mdf nz l lead t H) as (t'' & Hp' & F). rewrite Hp in Hp'. injection Hp' as <-.
+  destruct (get_action_accepts_lemma mdf nz l lead t f H) as (t'' & Hp' & Hg). rewrite Hp in Hp'. injection Hp' as <-.
+  exists (map f (rows t')). split; auto.
+  assert (Hrows : Forall (fun r => length r = prod (encoder_input_shape l)) (rows t')).
+  { unfold rows. rewrite Hshape. apply chunks_all_length. unfold wf in Hwf'. rewrite Hwf', Hshape. reflexivity. }
+  clear Hg. revert Hrows F.
+  generalize (rows t') (chunks (prod (space_shape l)) (prod lead) (dat t)). intros rs ins Hrows F.
+  induction F as [|row r_in rs' ins' HR F IH]; cbn [map]; constructor.
+  - unfold get_action_model. rewrite HR. unfold net_rows. cbn [shp].
+    destruct (list_eq_dec Nat.eq_dec (encoder_input_shape l) (encoder_input_shape l)); [|congruence].
+    unfold rows. cbn [shp dat chunks option_map map].
+    inversion Hrows as [|? ? Hlen _]; subst. rewrite <- Hlen, firstn_all. reflexivity.
+  - apply IH. inversion Hrows; auto.
+Qed.
